@@ -29,6 +29,7 @@ func init() {
 			"C05.R3 E7 layout of append-built records vs the layouts parsed from doc/LJH.md and the off.go comment; provenance of the values passed by PublishData",
 			"C05.R4 header key sets: writer format string vs reader patterns",
 			"C05.R6 dominance / control of create-header-record in PublishData; range loop over the published records",
+			"C05.R7 every printf-style call in the file-format packages (ljh, off) has a constant format string",
 		},
 		Assumptions: []string{"json.Marshal serialises exactly the exported fields (no custom marshaller on the writer types)"},
 		Run:         runC05,
@@ -41,11 +42,13 @@ func runC05(p *Prog, r *Report) {
 	r.MinInstances["C05.R3"] = 25
 	r.MinInstances["C05.R4"] = 5
 	r.MinInstances["C05.R6"] = 9
+	r.MinInstances["C05.R7"] = 6
 	c05R1(p, r)
 	c05R2(p, r)
 	c05R3(p, r)
 	c05R4(p, r)
 	c05R6(p, r)
+	c05R7(p, r)
 }
 
 // ---- R1 -----------------------------------------------------------------------------------
@@ -923,5 +926,42 @@ func c05R6(p *Prog, r *Report) {
 		if l != nil {
 			r.Check(!BlockReaches(l.Header, e.header.Block()), "C05.R6", owner+": header precedes the records", p.InstrPos(e.header), "the header block cannot be reached from the record loop", "the header can be written after records")
 		}
+	}
+}
+
+// ---- R7: header text is produced from constant formats ------------------------------------------
+
+// c05R7: in the file-format packages every printf-style call has a constant format string.  A
+// format assembled from data (a pixel or channel name concatenated into it) lets a '%' in that
+// data consume the arguments of the lines that follow: header lines disappear or carry
+// "%!e(MISSING)" — the header is no longer well-formed.
+func c05R7(p *Prog, r *Report) {
+	n := map[string]int{}
+	for _, fn := range p.LibFuncs() {
+		pk := fnPkg(fn)
+		if pk == nil || !(strings.HasSuffix(pk.Path(), "/ljh") || strings.HasSuffix(pk.Path(), "/off")) {
+			continue
+		}
+		Instrs(fn, func(in ssa.Instruction) {
+			cc := CallOf(in)
+			if cc == nil || cc.StaticCallee() == nil {
+				return
+			}
+			idx := -1
+			switch CalleeName(cc) {
+			case "fmt.Sprintf", "fmt.Printf", "fmt.Errorf":
+				idx = 0
+			case "fmt.Fprintf":
+				idx = 1
+			default:
+				return
+			}
+			r.Fn(FuncName(fn))
+			base := "format of " + CalleeName(cc) + " in " + FuncName(fn)
+			n[base]++
+			_, isConst := cc.Args[idx].(*ssa.Const)
+			r.Check(isConst, "C05.R7", fmt.Sprintf("%s #%d", base, n[base]), p.InstrPos(in), "constant format string",
+				"the format string is assembled at run time: a '%' inside the data that is spliced into it (a pixel or channel name) is taken as a verb and eats the arguments of the following header lines, which then vanish or read %!e(MISSING)")
+		})
 	}
 }
